@@ -175,6 +175,12 @@ func runC12Reqs(c *Ctx) {
 			if i == 0 && ci%7 == 0 {
 				r.sample(map[string]interface{}{"GetSystemReqs": in, "result": k.out, "model": reps[i]})
 			}
+			// direct property monitor: clamped to the limits
+			if ok1 && ok2 && (cc > int64(g.MaxCores)*100 || mm > int64(g.MaxMemGB)*1024 || cc <= 0 || mm <= 0) {
+				r.violate(Violation{Kind: "property", Key: "C12:local:not-clamped",
+					What:  fmt.Sprintf("GetSystemReqs returned %g threads / %g GB for limits %d cores / %d GB", k.out.Threads, k.out.MemGB, g.MaxCores, g.MaxMemGB),
+					Input: in, Expect: "0 < threads <= maxCores, 0 < mem <= maxMemGB"})
+			}
 			if !(ok1 && ok2 && ok3) || len(model) != 2 || model[0] != got {
 				if reported < 4 {
 					reported++
@@ -184,12 +190,6 @@ func runC12Reqs(c *Ctx) {
 						Broken: "correspondence C12.norm"})
 				}
 				continue
-			}
-			// direct property monitor: clamped to the limits
-			if cc > int64(g.MaxCores)*100 || mm > int64(g.MaxMemGB)*1024 || cc <= 0 || mm <= 0 {
-				r.violate(Violation{Kind: "property", Key: "C12:local:not-clamped",
-					What:  fmt.Sprintf("GetSystemReqs returned %g threads / %g GB for limits %d cores / %d GB", k.out.Threads, k.out.MemGB, g.MaxCores, g.MaxMemGB),
-					Input: in, Expect: "0 < threads <= maxCores, 0 < mem <= maxMemGB"})
 			}
 			// second application (getJobReqs then Enqueue): exact when threads*100 is a multiple of 25
 			if cc%25 == 0 {
